@@ -134,3 +134,30 @@ Example lowering_rejects_acquire_load :
   lowering_ok W64 (AAnd, W32, [(IRmwAnd, W32, [OSeqCst])]) = true /\
   lowering_ok W64 (ACas, WPtr, [(ICmpXchg, W64, [OSeqCst; OSeqCst])]) = true.
 Proof. repeat split. Qed.
+
+(* atomic.Value (machine V, every pointer atomic one step): under every schedule and for
+   any number of storers and loaders - all stored pointers non-nil, as Store demands -
+   the type word is published only after the data word: once the type word is set the
+   data word is non-nil, and no Load has ever returned a non-nil type word with a nil data
+   word.  (Stores of differently typed values panic and are not modelled; Swap and
+   CompareAndSwap share the first-store protocol and are not modelled either.) *)
+Theorem value_type_published_after_data : forall progs sc, Forall (Forall vop_ok) progs ->
+  let s := v_run false sc (v_init progs) in
+  (v_typ s = TSet -> v_data s <> 0) /\
+  forall t th d, nth_error (v_ths s) t = Some th -> In (VRVal d) (vout th) -> d <> 0.
+Proof. exact value_published. Qed.
+Print Assumptions value_type_published_after_data.
+
+(* with the two publishing stores of the first Store the other way round (type word
+   first) the statement is false: Store || Load, schedule 1,1,1,0,0,1 *)
+Theorem value_reordered_stores_refuted :
+  exists progs sc, Forall (Forall vop_ok) progs /\
+    let s := v_run true sc (v_init progs) in
+    exists th, nth_error (v_ths s) 0 = Some th /\ vout th = [VRVal 0].
+Proof. exact value_reordered_ex. Qed.
+Print Assumptions value_reordered_stores_refuted.
+
+Example value_nontrivial :
+  let s := v_run false [1;1;0;1;2;1;0;2;2;0]%nat (v_init [[VLoad; VLoad]; [VStore 3]; [VStore 5; VLoad]]) in
+  (v_typ s, v_data s) = (TSet, 5).
+Proof. vm_compute. reflexivity. Qed.
